@@ -70,6 +70,66 @@ bool check_level_sizes(const Index &idx, size_t n, size_t eps, size_t epsrec, co
     return true;
 }
 
+/// C07's per-query oracle over the records of hook H2 (one per level visited, top to bottom). What is demanded is the
+/// property's substance and no particular loop structure: every visited level chooses the segment an unbounded scan would
+/// choose, never starts scanning before the window, finds the responsible segment inside the window and inspects at most
+/// 2*EpsRec+3 segments; a search may skip top levels only if the first level it visits fits into one window entirely.
+template<typename K, size_t R, typename Segs, typename Offs>
+bool check_routing(const std::vector<sim::LevelRec> &recs, const Segs &segs, const Offs &offs, size_t height, K k, K q, Outcome &out, Stats &st, Trace &tr) {
+    size_t expected_levels = height - 1;
+    if (recs.size() > height || (expected_levels > 0 && recs.empty())) { // (a search may also report the scan of the root's own level)
+        out.fail("levels-visited", "search visited " + std::to_string(recs.size()) + " levels, height-1 = " + std::to_string(expected_levels), "Q " + key_text(q));
+        return false;
+    }
+    bool first_rec = true;
+    for (auto &lr : recs) {
+        size_t lb = offs[lr.level], le = offs[lr.level + 1] - 1; // le = position of the sentinel
+        size_t level_size = le - lb;
+        bool skipped_above = first_rec && (size_t) lr.level + 1 < expected_levels; // the search started below the level under the root
+        if ((size_t) lr.level + 1 >= offs.size()) { out.fail("levels-visited", "search reports level " + std::to_string(lr.level) + " of an index of height " + std::to_string(height), "Q " + key_text(q)); return false; }
+        first_rec = false;
+        if (skipped_above && level_size > 2 * R + 3) {
+            out.fail("levels-visited", "search starts at level " + std::to_string(lr.level) + " (" + std::to_string(level_size) + " segments, more than one window of 2*EpsRec+3) without a prediction from the level above", "Q " + key_text(q));
+            return false;
+        }
+        // The segment responsible for k at this level: the one an unbounded forward scan from the start of the
+        // level stops at (advance while the next key is <= k). On a sorted level this is the rightmost segment
+        // with key <= k. build() may append a closing segment keyed (last data key + 1) to an upper level whose
+        // own last key is larger, so a level's tail is not always sorted; the scan semantics is what the
+        // library's routing implements, and is what is demanded here (DESIGN.md 9, observation O1).
+        size_t truth = 0;
+        if (level_size >= 2) { // all entries but the last are sorted: binary search there, then one scan step
+            size_t lo = 0, hi = level_size - 1; // first index in the prefix with key > k
+            while (lo < hi) { size_t mid = (lo + hi) / 2; if (segs[lb + mid].key <= k) lo = mid + 1; else hi = mid; }
+            truth = lo == 0 ? 0 : lo - 1;
+            if (truth == level_size - 2 && segs[lb + level_size - 1].key <= k) truth = level_size - 1;
+        }
+        tr.add(lr.chosen);
+        std::string where = " level=" + std::to_string(lr.level) + " predicted=" + std::to_string(lr.predicted) + " scan_start=" + std::to_string(lr.scan_start) +
+                            " chosen=" + std::to_string(lr.chosen) + " true=" + std::to_string(truth) + " q=" + key_text(q);
+        if (lr.chosen != truth) { out.fail("wrong-segment", "routing chose a segment that is not the rightmost with key <= q:" + where, "Q " + key_text(q)); return false; }
+        if (!skipped_above) {
+            size_t win_lo = lr.predicted > R + 1 ? lr.predicted - (R + 1) : 0;
+            size_t win_hi = lr.predicted + R + 2; // exclusive
+            if (lr.scan_start < win_lo) { out.fail("window-start", "scan starts before predicted-(EpsRec+1):" + where, "Q " + key_text(q)); return false; }
+            if (truth < win_lo || truth >= win_hi) { out.fail("segment-outside-window", "responsible segment outside [pos-(EpsRec+1), pos+EpsRec+2):" + where, "Q " + key_text(q)); return false; }
+            if (lr.window_end && lr.window_end > win_hi) {
+                out.fail("window-too-wide", "binary-search window [" + std::to_string(lr.scan_start) + "," + std::to_string(lr.window_end) + ") exceeds [pos-(EpsRec+1), pos+EpsRec+2):" + where, "Q " + key_text(q));
+                return false;
+            }
+        }
+        if (lr.window_end && lr.window_end - lr.scan_start > 2 * R + 3) { // binary-search path: the searched window itself must be the bounded one
+            out.fail("window-too-wide", "binary-search window [" + std::to_string(lr.scan_start) + "," + std::to_string(lr.window_end) + ") holds more than 2*EpsRec+3 segments:" + where, "Q " + key_text(q));
+            return false;
+        }
+        size_t visited = lr.chosen >= lr.scan_start ? lr.chosen - lr.scan_start + 1 : 1;
+        if (visited > 2 * R + 3) { out.fail("visited-too-many", "more than 2*EpsRec+3 segments inspected:" + where, "Q " + key_text(q)); return false; }
+        st.max("max_visited_per_level", visited);
+        if (lr.window_end) st.inc("reach.binary_search_routing"); else st.inc("reach.linear_routing");
+    }
+    return true;
+}
+
 template<typename K, size_t E, size_t R, typename F>
 struct PgmClass {
     using Index = PgmOpen<K, E, R, F>;
@@ -219,46 +279,7 @@ struct PgmClass {
                     sim::t_level_rec = nullptr;
                     tr.add(r.pos);
                     K k = std::max(idx->first(), q);
-                    size_t expected_levels = idx->height() - 1;
-                    if (recs.size() != expected_levels) {
-                        out.fail("levels-visited", "search visited " + std::to_string(recs.size()) + " levels, height-1 = " + std::to_string(expected_levels), "Q " + key_text(q));
-                        break;
-                    }
-                    for (auto &lr : recs) {
-                        size_t lb = offs[lr.level], le = offs[lr.level + 1] - 1; // le = position of the sentinel
-                        size_t level_size = le - lb;
-                        // The segment responsible for k at this level: the one an unbounded forward scan from the start of the
-                        // level stops at (advance while the next key is <= k). On a sorted level this is the rightmost segment
-                        // with key <= k. build() may append a closing segment keyed (last data key + 1) to an upper level whose
-                        // own last key is larger, so a level's tail is not always sorted; the scan semantics is what the
-                        // library's routing implements, and is what is demanded here (DESIGN.md 9, observation O1).
-                        size_t truth = 0;
-                        if (level_size >= 2) { // all entries but the last are sorted: binary search there, then one scan step
-                            size_t lo = 0, hi = level_size - 1; // first index in the prefix with key > k
-                            while (lo < hi) { size_t mid = (lo + hi) / 2; if (segs[lb + mid].key <= k) lo = mid + 1; else hi = mid; }
-                            truth = lo == 0 ? 0 : lo - 1;
-                            if (truth == level_size - 2 && segs[lb + level_size - 1].key <= k) truth = level_size - 1;
-                        }
-                        tr.add(lr.chosen);
-                        std::string where = " level=" + std::to_string(lr.level) + " predicted=" + std::to_string(lr.predicted) + " scan_start=" + std::to_string(lr.scan_start) +
-                                            " chosen=" + std::to_string(lr.chosen) + " true=" + std::to_string(truth) + " q=" + key_text(q);
-                        if (lr.chosen != truth) { out.fail("wrong-segment", "routing chose a segment that is not the rightmost with key <= q:" + where, "Q " + key_text(q)); break; }
-                        size_t win_lo = lr.predicted > R + 1 ? lr.predicted - (R + 1) : 0;
-                        size_t win_hi = lr.predicted + R + 2; // exclusive
-                        if (lr.scan_start != win_lo) { out.fail("window-start", "scan does not start at predicted-(EpsRec+1):" + where, "Q " + key_text(q)); break; }
-                        if (truth < win_lo || truth >= win_hi) { out.fail("segment-outside-window", "responsible segment outside [pos-(EpsRec+1), pos+EpsRec+2):" + where, "Q " + key_text(q)); break; }
-                        if (lr.window_end) { // binary-search path: the searched window itself must be the bounded one
-                            if (lr.window_end > win_hi || lr.window_end - lr.scan_start > 2 * R + 3) {
-                                out.fail("window-too-wide", "binary-search window [" + std::to_string(lr.scan_start) + "," + std::to_string(lr.window_end) + ") exceeds [pos-(EpsRec+1), pos+EpsRec+2):" + where, "Q " + key_text(q));
-                                break;
-                            }
-                        }
-                        size_t visited = lr.chosen - lr.scan_start + 1;
-                        if (visited > 2 * R + 3) { out.fail("visited-too-many", "more than 2*EpsRec+3 segments inspected:" + where, "Q " + key_text(q)); break; }
-                        st.max("max_visited_per_level", visited);
-                        if (lr.window_end) st.inc("reach.binary_search_routing"); else st.inc("reach.linear_routing");
-                    }
-                    if (!out.ok) break;
+                    if (!check_routing<K, R>(recs, segs, offs, idx->height(), k, q, out, st, tr)) break;
                 }
                 st.inc("queries", queries.size());
             }
